@@ -220,6 +220,29 @@ CHECKS["C12"] = {
     "note": TB + "; character classes a/n/d/x/w/{/}/backslash",
 }
 
+CHECKS["C13"] = {
+    "text": "NameParse.tla transcribes the single-pass tokenizer (sections, words, word case with brace level and special "
+            "characters, strict-mode errors) and the partition of the three BibTeX forms, and states independently the "
+            "top-level word structure, BibTeX's case rule (within InCaseScope) and the reference partition; MC_NameParse proves "
+            "InvErrors and InvParts for every name of up to 5 (quick: 1.8e5) / 6 character tokens over 11 classes and every name "
+            "of up to 5 / 6 words x 3 cases x 3 separators. Every name is concretised in 2-3 spellings and run through "
+            "parse_single_name_into_parts (strict) and SplitNameParts (invalid name -> MiddlewareErrorBlock keeping the entry, "
+            "library still writable). The repository's 149 BibTeX-derived corpus cases are fed to TLC first (specification = "
+            "corpus, otherwise the machinery fails) and, with random names of 1-12 words, compared with the code.",
+    "ref": "6/C13", "technique": "TLA+ spec (NameParse.tla: operational parser vs BibTeX reference rules) model-checked with TLC + bounded-exhaustive replay + corpus-validated TLC oracle",
+    "note": TB + "; alphabet: backslash only before a letter or accent; case compared within InCaseScope",
+}
+CHECKS["C14"] = {
+    "text": "NameMerge.tla states merge_last_name_first over word token sequences and the inverse law "
+            "parse(merge(parse(name))) = parse(name); MC_NameParse proves InvInverse for every enumerated valid name with a "
+            "non-empty last part (chars and words parts). On the code every such name, concretised and grouped into lists of "
+            "1-3 persons with varied ' and ' spellings, goes through the function pair and (every sixth list) through "
+            "parse_string(append_middleware=[SeparateCoAuthors, SplitNameParts]) / write_string(prepend_middleware="
+            "[MergeNameParts, MergeCoAuthors]) on author/editor/translator; random lists of 1-6 random names likewise.",
+    "ref": "6/C14", "technique": "TLA+ spec (NameMerge.tla over NameParse.tla) model-checked with TLC + bounded-exhaustive replay through functions and entry-point stacks",
+    "note": TB + "; domain restrictions of the statement (non-empty last, no word 'and', no trailing odd backslash)",
+}
+
 NOT_APPLICABLE = {}
 for _e in ENGINES:
     _e["serves_properties"] = sorted(CHECKS)
